@@ -103,7 +103,15 @@ class Report:
         if text not in self.trusted_base:
             self.trusted_base.append(text)
 
-    def supersede(self, old_rules, new_rule: str, what: str) -> int:
+    def supersede(self, old_rules, new_rule: str, what: str) -> None:
+        """(deferred to finish(): floors and instances are complete by then)"""
+        self.__dict__.setdefault("_deferred", []).append(lambda: self._supersede(old_rules, new_rule, what))
+
+    def arbitrate(self, old_rules, new_rule: str, what: str, pred=None) -> None:
+        """(deferred to finish(); arbitration runs before supersession)"""
+        self.__dict__.setdefault("_deferred_first", []).append(lambda: self._arbitrate(old_rules, new_rule, what, pred))
+
+    def _supersede(self, old_rules, new_rule: str, what: str) -> int:
         """A structural rule that ended UNDECIDED (its idiom was not recognised) is covered by a semantic rule that decides the
         same clause on the explicit small games: when every instance of `new_rule` holds (and its floor is met), the undecided
         instances of `old_rules` are recorded as assumed, with the reason. A violated instance is never touched."""
@@ -117,9 +125,15 @@ class Report:
                 i.message = (i.message + " -- " if i.message else "") + f"idiom not recognised; the clause ({what}) is decided on the explicit small games by {new_rule}, which holds on all {len(new)} instances"
                 self.floors.pop(i.rule, None)
                 n += 1
+        # a structural rule that found fewer places to apply than on the pinned tree (the code is shaped differently) does not make
+        # the run undecided when the explicit-game rule decides its clause
+        for r in old_rules:
+            if r in self.floors and sum(1 for i in self.instances if i.rule == r) < self.floors[r]:
+                self.floors.pop(r, None)
+                n += 1
         return n
 
-    def arbitrate(self, old_rules, new_rule: str, what: str, pred=None) -> int:
+    def _arbitrate(self, old_rules, new_rule: str, what: str, pred=None) -> int:
         """A structural rule is a sufficient condition phrased on the shape of the code; the explicit-game rule `new_rule` decides
         the same clause on whole small games. When the structural rule reports a violation but *every* instance of `new_rule` holds
         (and its floor is met), the structural finding is contradicted on the games where the clause can be checked exactly: it is
@@ -145,6 +159,9 @@ class Report:
             return json.load(fh).get("findings", [])
 
     def finish(self, seed: int = 0, selftest: Optional[Dict[str, Any]] = None) -> int:
+        for fn in self.__dict__.get("_deferred_first", []) + self.__dict__.get("_deferred", []):
+            fn()
+        self.__dict__["_deferred_first"], self.__dict__["_deferred"] = [], []
         known_open = [
             k for k in self._known() if k.get("status") == "open" and k.get("property") == self.prop
         ]
